@@ -113,8 +113,8 @@ Fixpoint pairs_forest (cl : list (list Z)) (ps : list (Z * Z)) : bool :=
   | [] => true
   | (a, b) :: r => if existsb (Z.eqb b) (cls_of cl a) then false else pairs_forest (cls_merge cl a b) r
   end.
-(** defect class "redundant-squash-cycle": the `!` pairs contain a cycle over atoms, i.e. some pair
-    joins two atoms that the earlier pairs already identify *)
+(** FORMER defect class "redundant-squash-cycle" (repaired by /repo 03eb080; kept to describe inputs): the
+    `!` pairs contain a cycle over atoms, i.e. some pair joins two atoms that the earlier pairs already identify *)
 Definition redundant_squash_cycle (g : graph) : bool := negb (pairs_forest [] (bang_pairs g)).
 
 (** ------------------------------------------------------------ cases *)
@@ -150,48 +150,24 @@ Definition stale_node (o : obs_graph) (k : Z) (a : attrs) : bool :=
 Definition stale_hcount_aromatic (o : obs_graph) : bool :=
   existsb (fun p => stale_node o (fst p) (snd p)) (fst o).
 
-(** defect class "stale-squashed-entry": the one-level `squashed` dict names an atom that an earlier
-    contraction has already removed (a keeper that was merged into another keeper), e.g. one atom
-    shared by four fragments whose own fragment is the third in the string *)
-Fixpoint stale_lookup (sq : list (Z * Z)) (dead : list Z) (ps : list (Z * Z)) : bool :=
-  match ps with
-  | [] => false
-  | (a, b) :: r =>
-      let keep := sq_get sq a in
-      let rm := sq_get sq b in
-      if existsb (Z.eqb keep) dead || existsb (Z.eqb rm) dead then true
-      else if Z.eqb keep rm then false
-      else stale_lookup (sq_set rm keep sq) (rm :: dead) r
-  end.
-Definition stale_squashed_entry (g : graph) : bool := stale_lookup [] [] (bang_pairs g).
-
-(** the two bookkeeping classes cover everything the theorems exclude: outside them the hypothesis
-    [squash_safe] of squash_count / squash_neighbours / squash_membership holds (checked per case) *)
-Definition class_cover_ok (g : graph) : bool :=
-  redundant_squash_cycle g || stale_squashed_entry g
-  || squash_safe (node_keys g) [] [] (bang_items g).
-
 Definition corr_ok (c : case) : bool :=
   if c_skip c then true else
-  class_cover_ok (c_sq0 c) &&
   match squash_atoms (c_sq0 c), c_sq1 c with
   | Ok g, Some o => obs_eqb (observe g) o
   | Err _, None => true
   | _, _ => false
   end.
 
-(** a failing input that lies in a listed defect class is reported with the class's code (11 / 12 / 13);
-    the class predicates are evaluated here, in Coq, with the definitions the theorems use *)
+(** a failing input that lies in the listed defect class is reported with the class's code (12); the class
+    predicate is evaluated here, in Coq, with the definition the refutation theorem uses.  (The classes
+    redundant-squash-cycle / stale-squashed-entry, codes 11 / 13, were repaired by /repo commit 03eb080.) *)
 Definition classify (c : case) (code : nat) : nat :=
   match code with
   | 0%nat => 0%nat
-  | _ =>
-      if redundant_squash_cycle (c_sq0 c) then 11%nat
-      else if stale_squashed_entry (c_sq0 c) then 13%nat
-      else match c_sq1 c with
-           | Some o => if stale_hcount_aromatic o then 12%nat else code
-           | None => code
-           end
+  | _ => match c_sq1 c with
+         | Some o => if stale_hcount_aromatic o then 12%nat else code
+         | None => code
+         end
   end.
 
 Definition base_fail (c : case) : nat :=
